@@ -180,10 +180,33 @@ func (smpl *Simple[Type]) main() {
 	case <-smpl.breaker.IsBreaked():
 	case <-smpl.opts.Ctx.Done():
 	case <-smpl.graceful.IsBreaked():
-		smpl.priority.GracefulStop()
+		smpl.gracefulStop()
 	case err := <-smpl.priority.Err():
 		smpl.err <- err
 	}
+}
+
+// Waits for graceful termination of the main discipline, but no longer than until
+// rough stop or context cancellation.
+func (smpl *Simple[Type]) gracefulStop() {
+	completed := make(chan struct{})
+
+	go func() {
+		defer close(completed)
+
+		smpl.priority.GracefulStop()
+	}()
+
+	select {
+	case <-smpl.breaker.IsBreaked():
+		smpl.priority.Stop()
+	case <-smpl.opts.Ctx.Done():
+		smpl.priority.Stop()
+	case <-completed:
+		return
+	}
+
+	<-completed
 }
 
 func (smpl *Simple[Type]) handler(ctx context.Context) {
